@@ -64,3 +64,28 @@ Theorem C03_requested_q_positive : forall cutoff l x, (0 < cutoff)%R ->
   ((cutoff <= Rabs x)%R -> In x l -> In (Rabs x) (positive_cut ROps cutoff l)).
 Proof. intros cutoff l x Hc. split; [apply positive_cut_positive; exact Hc | apply positive_cut_keeps]. Qed.
 Print Assumptions C03_requested_q_positive.
+
+(* the weights the theorems above speak about are those of the CODE: the element formulas regenerated from the
+   current text of sasmodels/resolution.py (Gen/C03_code.v; bin_edges, pinhole_resolution, _q_perp_weights and
+   apply_resolution_matrix evaluated on symbolic arrays) are the model's, on the reals and on binary64 alike *)
+From SM Require Import Gen.C03_code C03.Translated.
+Theorem C03_code_pinhole_column : forall (T : Type) (O : Ops T) q_calc cdf q sigma nlo nhi, translated = true ->
+  pinhole_column O q_calc cdf q sigma nlo nhi =
+  let w := map (fun x => code_pin_elem O (fst x) q sigma nlo nhi (fst (snd x)) (snd (snd x))) (combine q_calc (pairs cdf)) in
+  map (fun x => div O x (sumL O w)) w.
+Proof. exact @code_pinhole_column. Qed.
+Print Assumptions C03_code_pinhole_column.
+Theorem C03_code_bin_edges : forall (T : Type) (O : Ops T) half x0 x1 xl xp r r', translated = true ->
+  rev (x0 :: x1 :: r) = xl :: xp :: r' ->
+  bin_edges O half (x0 :: x1 :: r) =
+  code_edge_first O half x0 x1 :: map (fun ab => code_edge_mid O half (fst ab) (snd ab)) (pairs (x0 :: x1 :: r)) ++ [code_edge_last O half xp xl].
+Proof. exact @code_bin_edges. Qed.
+Print Assumptions C03_code_bin_edges.
+Theorem C03_code_perp_weights : forall (T : Type) (O : Ops T) sqrtT edges qi w, translated = true ->
+  perp_weights O sqrtT edges qi w = map (fun ab => code_perp_elem O sqrtT qi w (fst ab) (snd ab)) (pairs edges).
+Proof. exact @code_perp_weights. Qed.
+Print Assumptions C03_code_perp_weights.
+Theorem C03_code_apply : forall (T : Type) (O : Ops T) theory column, translated = true ->
+  code_apply O theory column = apply O theory column.
+Proof. exact @code_apply_is_model. Qed.
+Print Assumptions C03_code_apply.
